@@ -1,5 +1,6 @@
 import LyModel.Base
 import LyModel.Text.Drv
+import LyModel.Ctx.Drv
 /-! Dispatch table of the line-protocol driver: one handler per component. -/
 namespace LyModel.Drv
 
@@ -7,6 +8,7 @@ def dispatch (comp op : String) (args : List String) : String :=
   match comp with
   | "echo" => "ok " ++ op ++ " " ++ " ".intercalate args
   | "text" => Text.Drv.handle op args
+  | "ctx" => Ctx.Drv.handle op args
   | _ => "err NoSuchComponent"
 
 end LyModel.Drv
